@@ -98,6 +98,8 @@ pub struct ExecResult {
     /// lock-order edges: (held key, held mode, requested key, requested mode)
     pub edges: BTreeSet<(u64, Mode, u64, Mode)>,
     pub optrace: Vec<Vec<LockEvt>>,
+    /// global grant order (thread, lock key, phase) when record_trace is on
+    pub order: Vec<(usize, u64, String)>,
     pub panics: Vec<(usize, String)>,
     pub diverged: bool,
 }
@@ -139,6 +141,7 @@ struct Exec {
     touches: BTreeMap<u64, Touch>,
     edges: BTreeSet<(u64, Mode, u64, Mode)>,
     optrace: Vec<Vec<LockEvt>>,
+    order: Vec<(usize, u64, String)>,
     /// keys on which branching is allowed; None = branch everywhere
     conflict: Option<Arc<BTreeSet<u64>>>,
     diverged: bool,
@@ -327,6 +330,7 @@ impl Exec {
             }
             if self.record_trace {
                 self.optrace[chosen].push(LockEvt::Acq(key, p.phase, applied != Applied::Failed));
+                self.order.push((chosen, key, format!("{:?}", p.phase)));
             }
         }
         self.threads[chosen].grant = applied;
@@ -540,6 +544,7 @@ pub fn run_one(bodies: Vec<Body>, cfg: RunConfig) -> ExecResult {
             touches: BTreeMap::new(),
             edges: BTreeSet::new(),
             optrace: vec![Vec::new(); n],
+            order: Vec::new(),
             conflict: cfg.conflict.clone(),
             diverged: false,
             record_trace: cfg.record_trace,
@@ -671,6 +676,7 @@ pub fn run_one(bodies: Vec<Body>, cfg: RunConfig) -> ExecResult {
         touches: ex.touches,
         edges: ex.edges,
         optrace: ex.optrace,
+        order: ex.order,
         panics,
         diverged: ex.diverged,
     }
